@@ -317,6 +317,10 @@ func decode(data []byte) (ents []model.DEntry, sizes []int64, ok bool) {
 				return ents, sizes, false
 			}
 			sizes = append(sizes, h.Size)
+		} else if h.Size != 0 {
+			// a size recorded in the header of an entry that stores no content still counts
+			// towards "the sum of the sizes recorded in the entry headers"
+			sizes = append(sizes, h.Size)
 		}
 		ents = append(ents, model.DEntry{Name: h.Name, Type: h.Typeflag, Mode: h.Mode, MtimeNs: h.ModTime.UnixNano(), Link: h.Linkname, Body: body})
 	}
